@@ -187,6 +187,7 @@ func propC07() *Prop {
 			js = append(js, threadJob(job("C07b/concurrent-admission[2 threads]", "circuitbreaker", "VerifC07Concurrent", 2), 2))
 			js = append(js, threadJob(job("C07b/straggler-completes-while-a-trial-is-in-flight[half-open]", "circuitbreaker", "VerifC07StragglerHalfOpen"), 1))
 			js = append(js, threadJob(job("C07b/overlapping-failures-all-count[closed, with and without an expired counting window]", "circuitbreaker", "VerifC07OverlappingFailures"), 1))
+			js = append(js, threadJob(job("C07b/concurrent-failures-after-an-expired-counting-window[2 threads, every interleaving]", "circuitbreaker", "VerifC07ConcurrentFailuresAfterExpiredWindow"), 2))
 			js = append(js, threadJob(job("C07b/straggler-admitted-while-closed-completes-after-the-trip[fails]", "circuitbreaker", "VerifC07Straggler", 0), 2))
 			js = append(js, threadJob(job("C07b/straggler-admitted-while-closed-completes-after-the-trip[succeeds]", "circuitbreaker", "VerifC07Straggler", 1), 2))
 			if tier == "thorough" {
